@@ -86,6 +86,19 @@ theorem truncateAndRound_digs (ds : List Nat) (o : WOpts) (h : Digs 10 ds) : Dig
             · exact digs_take _ h
 
 
+theorem trimSci_digs (o : WOpts) (ds : List Nat) (h : Digs 10 ds) : Digs 10 (trimSci o ds) := by
+  unfold trimSci; split
+  · exact digs_take _ h
+  · exact h
+theorem trimPos_digs (o : WOpts) (l : Nat) (ds : List Nat) (h : Digs 10 ds) : Digs 10 (trimPos o l ds) := by
+  unfold trimPos; split
+  · exact digs_take _ h
+  · exact h
+theorem roundSci_digs (ds : List Nat) (o : WOpts) (h : Digs 10 ds) : Digs 10 (roundSci ds o).1 :=
+  trimSci_digs o _ (truncateAndRound_digs ds o h)
+theorem roundPos_digs (ds : List Nat) (e : Int) (o : WOpts) (h : Digs 10 ds) : Digs 10 (roundPos ds e o).1 :=
+  trimPos_digs o _ _ (truncateAndRound_digs ds o h)
+
 /-! ## the list-level layout functions -/
 
 @[simp] theorem asc_append_iff (a b : List Nat) : Asc (a ++ b) ↔ Asc a ∧ Asc b :=
@@ -115,8 +128,8 @@ theorem asc_writeScientific (fmt : Format) (feats : Features) (ds : List Nat) (e
     (hd : Digs 10 ds) (hexp : o.exp < 128) (hdp : o.dp < 128) (hr : 2 ≤ r) (hr36 : r ≤ 36) :
     Asc (writeScientific fmt feats ds e o r) := by
   unfold writeScientific
-  have htr := truncateAndRound_digs ds o hd
-  generalize truncateAndRound ds o = tr at htr
+  have htr := roundSci_digs ds o hd
+  generalize roundSci ds o = tr at htr
   obtain ⟨ds', c⟩ := tr
   simp only at htr ⊢
   have h0 : digitChar (ds'.head?.getD 0) < 128 := by simpa using digitChar_headD_lt ds' htr
@@ -145,8 +158,8 @@ theorem asc_writeNegative (ds : List Nat) (e : Int) (o : WOpts) (hd : Digs 10 ds
 theorem asc_writePositive (ds : List Nat) (e : Int) (o : WOpts) (hd : Digs 10 ds) (hdp : o.dp < 128) :
     Asc (writePositive ds e o) := by
   unfold writePositive
-  have htr := truncateAndRound_digs ds o hd
-  generalize truncateAndRound ds o = tr at htr
+  have htr := roundPos_digs ds e o hd
+  generalize roundPos ds e o = tr at htr
   obtain ⟨ds', c⟩ := tr
   simp only at htr ⊢
   have hc := asc_chars10 htr
